@@ -14,6 +14,8 @@ def run(vc, tier):
     # jobs have done by then (serial turn taken or not), is part of "at whichever point"
     pd = 1 if tier == 'quick' else 2
     c.run_vx_unit('c13-mtsched', src, 'sched-asan', ['--pairs', 0, '--mtonly', 1, '--explore', 1, '--P', pd, '--D', pd, '--exec-timeout', 30000], share=0.5 if tier != 'quick' else 0.9, **kw)
+    # one more deviation (the preempted worker is overtaken by the other one) for the two-worker scenario; thorough: for all of them
+    c.run_vx_unit('c13-mtsched-d2', src, 'sched-asan', ['--pairs', 0, '--mtonly', 1, '--explore', 1, '--P', 1, '--D', 2, '--exec-timeout', 30000] + (['--scen', 'mt-2workers'] if tier == 'quick' else []), share=0.5 if tier != 'quick' else 0.9, **kw)
     if tier != 'quick':
         c.run_vx_unit('c13-pairs', src, 'sched-asan', ['--pairs', 1, '--D', 0], share=0.9, **kw)
     c.extra['faults_injected'] = sum(r.stats.get('faults_injected', 0) for _, r, _ in c.units)
